@@ -186,7 +186,7 @@ type failure struct {
 func runCheck(prop string, ps *PropSpec, tier, repo string, seed int, verbose bool) int {
 	t0 := time.Now()
 	vdir := verifDir()
-	timeout := 30
+	timeout := 45
 	if tier == "thorough" {
 		timeout = 90
 	}
